@@ -53,6 +53,9 @@ def configs(tier, seed):
         for seg in ((40,) if tier == "quick" else (17, 40, 64)):
             out.append({"harness": "tls-meta", "name": "meta-%s-%04x-stream-segments-%d" % (v, code, seg), "version": v, "suite": code, "suite_name": name, "records": 2,
                         "max_len": 3, "min_len": 2, "grouping": "separate", "ipv": 4, "shape": "stream-segments", "stream_segments": True, "seg_size": seg, **extra})
+    # the capture clock steps back inside the connection
+    out.append({"harness": "tls-meta", "name": "meta-TLS12-009c-clock-step", "version": "TLS12", "suite": 0x009c, "suite_name": "TLS_RSA_WITH_AES_128_GCM_SHA256", "records": 2,
+                "max_len": 2, "min_len": 1, "grouping": "separate", "ipv": 4, "shape": "clock-step", "clock_step": True})
     from tlv.harness import c02
     for c in c02.configs(tier, seed):
         if tier == "quick" and not (c["name"].endswith("cid8.4.8") or c["name"].endswith("cid8.0.8")):
@@ -175,6 +178,9 @@ def run_config(cfg):
             for meta_on in (False, True):
                 ep = P.Endpoint(ipv=cfg.get("ipv", 4))
                 frames = P.tcp_frames(ep, items, group=_stream_groups(items) if cfg.get("stream_segments") else None, seg_size=cfg.get("seg_size"))
+                if cfg.get("clock_step"):
+                    from tlv.sx.core import sym_choice
+                    frames = P.clock_step(frames, sym_choice("clock_step_at", P.clock_step_positions(len(frames))))
                 out, sessions = P.run_tls(mods, frames, P.keylog_objects(mods, keylog), exp_meta=meta_on)
                 runs.append(_chunks(out, ep))
         except Exception as e:
@@ -246,6 +252,10 @@ def _concrete(cfg, inp):
     for args in ((), ("-a",)):
         ep = P.Endpoint(ipv=cfg.get("ipv", 4))
         pk = e2e.concrete_frames(ep, items, group=_stream_groups(items) if cfg.get("stream_segments") else None, seg_size=cfg.get("seg_size"))
+        if cfg.get("clock_step"):
+            opts = P.clock_step_positions(len(pk))
+            k = opts[inp.get("clock_step_at", 0)] if len(opts) > 1 else opts[0]
+            pk = [(f, t) if i < k else (f, t - 50000000) for i, (f, t) in enumerate(pk)]
         r = e2e.run_tlexport(pk, e2e.keylog_text(keylog), args=args)
         if r["problems"]:
             return {"ok": False, "problems": r["problems"][:3]}
